@@ -24,7 +24,8 @@ use std::collections::{BTreeMap, BTreeSet, HashMap, HashSet};
 #[derive(Clone, Debug)]
 pub enum RItem {
     Ns(String, Vec<RItem>),
-    St(String, Vec<String>),
+    /// name, members, methods (`st S m… | f… end`)
+    St(String, Vec<String>, Vec<String>),
     En(String, Vec<String>),
     /// storage letter (s static, c static const, g groupshared), name
     Gl(char, String),
@@ -123,7 +124,14 @@ fn parse_items(t: &[&str], mut i: usize, top: bool) -> Option<(Vec<RItem>, usize
                     xs.push(t[j].to_string());
                     j += 1;
                 }
-                out.push(if k == "st" { RItem::St(name, xs) } else { RItem::En(name, xs) });
+                out.push(if k == "st" {
+                    let mut it = xs.splitn(2, |x| x == "|");
+                    let ms = it.next().unwrap_or(&[]).to_vec();
+                    let fs = it.next().unwrap_or(&[]).to_vec();
+                    RItem::St(name, ms, fs)
+                } else {
+                    RItem::En(name, xs)
+                });
                 i = j + 1;
             }
             "gl" => {
@@ -220,8 +228,18 @@ fn show_items(items: &[RItem], out: &mut Vec<String>) {
                 show_items(inner, out);
                 out.push("end".into());
             }
-            RItem::St(n, xs) | RItem::En(n, xs) => {
-                out.push(if matches!(it, RItem::St(..)) { "st" } else { "en" }.into());
+            RItem::St(n, xs, fs) => {
+                out.push("st".into());
+                out.push(n.clone());
+                out.extend(xs.iter().cloned());
+                if !fs.is_empty() {
+                    out.push("|".into());
+                    out.extend(fs.iter().cloned());
+                }
+                out.push("end".into());
+            }
+            RItem::En(n, xs) => {
+                out.push("en".into());
                 out.push(n.clone());
                 out.extend(xs.iter().cloned());
                 out.push("end".into());
@@ -376,11 +394,20 @@ impl<'a> Walker<'a> {
                     let nn = self.ent(('N', id, 0), n, cur, "");
                     RItem::Ns(nn, self.items(inner, Some(id)))
                 }
-                RItem::St(n, ms) => {
+                RItem::St(n, ms, fs) => {
                     let o = self.next('S');
                     let nn = self.ent(('S', o, 0), n, cur, "");
                     let ms2 = ms.iter().enumerate().map(|(i, m)| self.ent(('M', o, i), m, Some(o), "")).collect();
-                    RItem::St(nn, ms2)
+                    // methods are functions of the registry; their source scope is the struct (`info` = #<struct>)
+                    let fs2 = fs
+                        .iter()
+                        .map(|f| {
+                            let k = self.next('F');
+                            // the name map puts a method into the root scope whatever namespace holds the struct
+                            self.ent(('F', k, 0), f, None, &format!("#{}", o))
+                        })
+                        .collect();
+                    RItem::St(nn, ms2, fs2)
                 }
                 RItem::En(n, vs) => {
                     let o = self.next('E');
@@ -472,6 +499,7 @@ fn src_stmts(ss: &[Stmt], t: &RTable, out: &mut String, depth: usize) {
             }
             Stmt::Use(r) => match parse_ref(r).and_then(|k| t.get(k)) {
                 Some(e) if e.key.0 == 'L' => out.push_str(&format!("{};\n", e.name)),
+                Some(e) if e.key.0 == 'F' && e.info.starts_with('#') => out.push_str("0;\n"),
                 Some(e) if e.key.0 == 'F' => {
                     let args: Vec<&str> =
                         if e.info == "-" || e.info.starts_with('@') { vec![] } else { e.info.chars().map(super::parg).collect() };
@@ -508,10 +536,14 @@ fn src_items(items: &[RItem], t: &RTable, nf: &mut usize, out: &mut String) {
                 src_items(inner, t, nf, out);
                 out.push_str("}\n");
             }
-            RItem::St(n, ms) => {
+            RItem::St(n, ms, fs) => {
                 out.push_str(&format!("struct {} {{", n));
                 for m in ms {
                     out.push_str(&format!(" int {};", m));
+                }
+                for f in fs {
+                    *nf += 1;
+                    out.push_str(&format!(" int {}() {{ return 0; }}", f));
                 }
                 out.push_str(" };\n");
             }
@@ -867,6 +899,7 @@ fn names_in_scope_of(t: &RTable, e: &REnt) -> Vec<String> {
     // source names that share the source scope of `e` (other than `e`)
     let level = |x: &REnt| -> Option<Option<usize>> {
         match x.key.0 {
+            'F' if x.info.starts_with('#') => None,
             'N' | 'S' | 'E' | 'G' | 'F' | 'C' | 'P' => Some(x.owner),
             'V' => t.get(('E', x.key.1, 0)).map(|p| p.owner),
             'D' => t.get(('C', x.key.1, 0)).map(|p| p.owner),
@@ -878,9 +911,16 @@ fn names_in_scope_of(t: &RTable, e: &REnt) -> Vec<String> {
         if o.key == e.key {
             continue;
         }
+        let in_struct = |x: &REnt| -> Option<usize> {
+            match x.key.0 {
+                'M' => x.owner,
+                'F' if x.info.starts_with('#') => x.info[1..].parse().ok(),
+                _ => None,
+            }
+        };
         let same = match (e.key.0, o.key.0) {
             ('L', 'L') => o.owner == e.owner,
-            ('M', 'M') => o.owner == e.owner,
+            _ if in_struct(e).is_some() || in_struct(o).is_some() => in_struct(e) == in_struct(o),
             ('L', _) => match level(o) {
                 Some(ns) => {
                     let fns = e.owner.and_then(|f| t.get(('F', f, 0))).and_then(|f| f.owner);
@@ -1003,6 +1043,9 @@ pub fn oracle(b0: &Built, b1: &Built, w0: &Walk, w1: &Walk, inp: &OracleIn) -> B
     let mut fstack: Vec<Option<bool>> = Vec::new();
     let mut last_fn_generated = false;
     let mut last_use_failed = false;
+    // declarations whose type did not resolve as in the skeleton: member lookups through them are consequences
+    let mut tainted: HashSet<usize> = HashSet::new();
+    let mut pending_taint = false;
     for i in 0..w0.evs.len() {
         match (&w0.evs[i], &w1.evs[i]) {
             (Ev::Open(c), _) => {
@@ -1014,6 +1057,10 @@ pub fn oracle(b0: &Built, b1: &Built, w0: &Walk, w1: &Walk, inp: &OracleIn) -> B
             (Ev::Decl { kind, name: n0, helper, .. }, Ev::Decl { name: n1, .. }) => {
                 let (_, ent) = site_letter(n0);
                 let letter = letter_of(n0);
+                if pending_taint {
+                    tainted.insert(i);
+                    pending_taint = false;
+                }
                 if matches!(kind, DK::Function | DK::Method) {
                     last_fn_generated = ent.is_none();
                 }
@@ -1048,7 +1095,33 @@ pub fn oracle(b0: &Built, b1: &Built, w0: &Walk, w1: &Walk, inp: &OracleIn) -> B
                                 let lvl = if key.0 == 'L' { "local" } else { "global" };
                                 // the name is taken by the struct Metal generates for a cbuffer `<name minus Type>`
                                 let cbtype = inp.msl && inp.table.ents.iter().any(|c| c.key.0 == 'C' && format!("{}Type", c.name) == e.name);
-                                let class = if cbtype { "cbuffer-type-clash" } else if all_printed.contains(e.name.as_str()) { "generated-clash" } else { "other" };
+                                // struct methods are named in the scope of the namespace that holds the struct: a method and a
+                                // namesake (function, global, type, method of another struct) of that namespace form one group
+                                let is_method = |x: &REnt| x.key.0 == 'F' && x.info.starts_with('#');
+                                let managed = |x: &REnt| -> Option<Option<usize>> {
+                                    match x.key.0 {
+                                        'N' | 'S' | 'E' | 'G' | 'F' => Some(x.owner),
+                                        'C' if inp.msl => Some(x.owner),
+                                        'V' => inp.table.get(('E', x.key.1, 0)).map(|p| p.owner),
+                                        _ => None,
+                                    }
+                                };
+                                let method_clash = inp.table.ents.iter().any(|o| {
+                                    o.key != e.key
+                                        && o.name == e.name
+                                        && (is_method(e) || is_method(o))
+                                        && managed(o).is_some()
+                                        && managed(o) == managed(e)
+                                });
+                                let class = if method_clash {
+                                    "method-clash"
+                                } else if cbtype {
+                                    "cbuffer-type-clash"
+                                } else if all_printed.contains(e.name.as_str()) {
+                                    "generated-clash"
+                                } else {
+                                    "other"
+                                };
                                 fails.insert(format!("verbatim:{}:{}:{}:{} | {} '{}' is unique in its scope and not reserved but printed as '{}'", t, class, lvl, key.0, show_key(*key), e.name, n1));
                             }
                         }
@@ -1117,6 +1190,14 @@ pub fn oracle(b0: &Built, b1: &Built, w0: &Walk, w1: &Walk, inp: &OracleIn) -> B
                     }
                 }
                 last_use_failed = fails.len() != before || (secondary && last_use_failed);
+                if *kind == UK::Type && fails.len() != before {
+                    pending_taint = true;
+                }
+                if let Res::Decls(y) = r1 {
+                    if *kind == UK::Value && y.iter().any(|d| tainted.contains(d)) {
+                        last_use_failed = true;
+                    }
+                }
             }
             _ => {}
         }
@@ -1251,6 +1332,7 @@ pub fn run_case(target: &str, prog: &str, cx: &mut RCtx, out: &mut Out) {
     {
         let level = |x: &REnt| -> Option<Option<usize>> {
             match x.key.0 {
+                'F' if x.info.starts_with('#') => None,
                 'N' | 'S' | 'E' | 'G' | 'F' | 'C' => Some(x.owner),
                 'V' => table.get(('E', x.key.1, 0)).map(|p| p.owner),
                 'D' => table.get(('C', x.key.1, 0)).map(|p| p.owner),
@@ -1472,6 +1554,7 @@ pub fn sweep_programs(n: &str) -> Vec<String> {
     v.push(format!("rs tex - zqr ef c zqe zqp {{ use G0 }} pl {} F0 d1", n));
     v.push(format!("rs tex - zqr ef v zqv {0} zqo {{ use G0 }} ef p zqf zqi {{ use G0 }} pl zqP F0,F1 -", n));
     v.push(format!("rs tex - zqr ef v zqv zqi {0} {{ use G0 }} ef p {0} zqi {{ use G0 }} pl zqP F0,F1 -", n));
+    v.push(format!("st zqs zqm | {} end rs cbs s0 zqr ef c zqe zqp {{ use G0 }} pl zqP F1 -", n));
     // the name next to the candidates generated from it
     v.push(format!("rs ba - {0} rs tex - {0}_0 cb {0}_1 - {0}_2 end {1}", n, tail("use G0 use G1 use D0.0")));
     v
@@ -1596,11 +1679,20 @@ impl<'a> RGen<'a> {
                 2 => {
                     let s = self.next('S');
                     let k = 1 + self.rng.below(2) as usize;
-                    let ms = (0..k).map(|_| self.name()).collect();
+                    let ms: Vec<String> = (0..k).map(|_| self.name()).collect();
+                    let nm = if self.rng.chance(1, 3) { 1 + self.rng.below(2) as usize } else { 0 };
+                    let mut fs: Vec<String> = Vec::new();
+                    for _ in 0..nm {
+                        let f = self.name();
+                        if !ms.contains(&f) && !fs.contains(&f) {
+                            self.next('F');
+                            fs.push(f);
+                        }
+                    }
                     self.structs.push(s);
                     self.refs.push(format!("S{}", s));
                     let sn = self.scope_name();
-                    out.push(RItem::St(sn, ms));
+                    out.push(RItem::St(sn, ms, fs));
                 }
                 3 => {
                     let e = self.next('E');
